@@ -406,6 +406,182 @@ def rule_cache(F, R):
     R.floor("R-C09-6", n, 2, "cached accessors")
 
 
+# ------------------------------------------------------------------------------------------------ R-C09-7 index spaces
+
+S_SPACE = {
+    # containers addressed by *dataset sample id* (reasons: confirmed by reading)
+    "m_soutputs": "strong-learner outputs of every dataset sample (constructor asserts dims == (dataset.samples(), target dims))",
+    "m_woutputs": "weak-learner outputs of every dataset sample (same assert)",
+    "m_cluster": "cluster_t::group(sample) is defined per dataset sample (built with dataset.samples())",
+}
+G_SPACE = {"x": "one scale per cluster group (function size = cluster.groups())", "gx": "gradient w.r.t. the scales", "m_gb1": "accumulated gradient per group"}
+
+
+def rule_index_spaces(F, R):
+    """R-C09-7: the scale objective's parallel body mixes three index spaces - positions in the iterator's sample list (P; `i` in
+    [range.begin(), range.end())), positions local to the range (L = P - begin; the `slice(range)` buffers and the range's targets) and dataset
+    sample ids (S = samples(P); the strong / weak outputs and the cluster assignment), plus group ids (G = group(S)). Every subscript must be
+    of its container's space: output(i - begin) = soutputs(samples(i)) + x(group(samples(i))) * woutputs(samples(i))."""
+    fs = [f for f in F.functions.values() if f.qn == "nano::gboost::scale_function_t::do_vgrad"]
+    if not fs:
+        raise AnalysisBroken("gboost::scale_function_t::do_vgrad not found")
+    f = fs[0]
+    ctor = [g for g in F.functions.values() if g.raw.get("ctor") and (g.cls or "") == "nano::gboost::scale_function_t" and g.inits]
+    p_members = set()
+    for g in ctor:
+        for i_ in g.inits:
+            if i_.get("k") == "init" and i_.get("n") and "m_iterator.samples().size()" in pp(i_):
+                p_members.add(i_["n"])
+    outer_samples = {v["d"] for v in f.nodes() if v["k"] == "var" and v.get("c") and pp(v["c"][0]) == "m_iterator.samples()"}
+    nsites = 0
+    for lam, g in F.lambdas_in(f):
+        rng = [p_ for p_ in g.params if "tensor_range_t" in (p_.get("t") or "")]
+        if not rng:
+            continue
+        rd = rng[0]["d"]
+        vars_ = {v["d"]: v for v in g.nodes() if v["k"] == "var"}
+        begin = {d for d, v in vars_.items() if v.get("c") and pp(v["c"][0]) == "%s.begin()" % rng[0]["n"]}
+        loopv = set()
+        for lp in g.nodes():
+            if lp["k"] == "for":
+                init = lp["c"][lp["r"].index("init")]
+                for v in walk(init):
+                    if v["k"] == "var" and v.get("c") and (ref_decl(v["c"][0]) in begin or pp(v["c"][0]) == "%s.begin()" % rng[0]["n"]):
+                        loopv.add(v["d"])
+        local_L = {d for d, v in vars_.items() if v.get("c") and re.fullmatch(r"(\w+)\.slice\(%s\)" % re.escape(rng[0]["n"]), pp(v["c"][0]))}
+        local_L |= {p_["d"] for p_ in g.params if "tensor_t<" in (p_.get("t") or "")}       # the range's own data handed in by the iterator
+
+        def peel(n):
+            n = skip(n)
+            while n is not None and n["k"] in ("cast", "paren") and n.get("c"):
+                n = skip(n["c"][0])
+            return n
+
+        def is_samples(n):
+            n = peel(n)
+            return (n["k"] == "ref" and n.get("d") in outer_samples) or pp(n) == "m_iterator.samples()"
+
+        def space(n, depth=0):
+            n = peel(n)
+            if n is None or depth > 8:
+                return None
+            if n["k"] == "int":
+                return "const"
+            if n["k"] == "ref":
+                d = n.get("d")
+                if d in loopv:
+                    return "P"
+                if d in begin:
+                    return "B"
+                v = vars_.get(d)
+                if v is not None and v.get("c") and (v.get("t") or "").startswith("const "):
+                    return space(v["c"][0], depth + 1)
+                return None
+            if n["k"] == "bin" and n["op"] == "-":
+                a, b = space(n["c"][0], depth + 1), space(n["c"][1], depth + 1)
+                if a == "P" and b == "B":
+                    return "L"
+                return None
+            if n["k"] == "call" and n.get("op") == "()" and len(n["c"]) == 2 and is_samples(n["c"][0]):
+                return "S" if space(n["c"][1], depth + 1) == "P" else None
+            if n["k"] == "call" and n.get("ck") == "mem" and callee(n) == "nano::cluster_t::group" and len(args(n)) == 1:
+                return "G" if space(args(n)[0], depth + 1) == "S" else None
+            if pp(n) == "%s.begin()" % rng[0]["n"]:
+                return "B"
+            return None
+
+        def container(n):
+            """(space, name) of an indexed container expression, None when it is not one of the tracked ones"""
+            n = peel(n)
+            if is_samples(n):
+                return "P", "samples"
+            if n["k"] == "ref":
+                if n.get("d") in local_L:
+                    return "L", n["n"]
+                if n["n"] in G_SPACE and n.get("dk") in ("var", "parm", "bind"):
+                    return "G", n["n"]
+            if n["k"] == "mem":
+                if n["n"] in S_SPACE:
+                    return "S", n["n"]
+                if n["n"] in G_SPACE:
+                    return "G", n["n"]
+                if n["n"] in p_members:
+                    return "P", n["n"]
+            return None
+        for x in g.nodes():
+            if x["k"] != "call":
+                continue
+            cont = idx = None
+            if x.get("op") == "()" and len(x["c"]) == 2:
+                cont, idx = x["c"][0], x["c"][1]
+            elif x.get("ck") == "mem" and len(args(x)) == 1 and callee(x).split("::")[-1].split("<")[0] in ("vector", "tensor", "array", "matrix", "group"):
+                cont, idx = x["c"][0], args(x)[0]
+            if cont is None:
+                continue
+            c_ = container(cont)
+            if c_ is None:
+                continue
+            nsites += 1
+            sp_ = space(idx)
+            inst = "%s(%s)@%d" % (c_[1], pp(idx)[:30], x["l"])
+            if sp_ is None:
+                R.incomplete("R-C09-7", inst, g.loc(x), "cannot tell the index space of `%s`" % pp(idx)[:60])
+                continue
+            names = {"P": "position in the iterator's sample list", "L": "position local to the range (i - begin)", "S": "dataset sample id (samples(i))", "G": "group id",
+                     "const": "constant", "B": "range begin"}
+            R.check(sp_ == c_[0], "R-C09-7", inst, g.loc(x), "`%s` is subscripted with a %s" % (c_[1], names[c_[0]]),
+                    "`%s` holds one entry per %s but is subscripted with `%s`, a %s: the objective is no longer mean_i loss(t_i, s(sample_i) + x(group_i) * w(sample_i)) "
+                    "(and depends on the batch / sample subset)" % (c_[1], names[c_[0]], pp(idx)[:50], names[sp_]))
+    R.floor("R-C09-7", nsites, 10, "subscripts in the scale objective's parallel body")
+    # the model output itself: s + x(group) * w for assigned samples, s alone for unassigned ones (group < 0)
+    nout = 0
+    for lam, g in F.lambdas_in(f):
+        outs = [x for x in g.nodes() if assignment(x) and re.match(r"\w+\.vector\(", pp(assignment(x)[0])) and "outputs" in pp(assignment(x)[0]).split(".")[0]]
+        for x in outs:
+            rhs = assignment(x)[1]
+            atoms = {}
+            for y in walk(rhs):
+                if y["k"] == "call" and y.get("ck") == "mem" and y.get("c") and skip(y["c"][0])["k"] == "mem" and skip(y["c"][0])["n"] in ("m_soutputs", "m_woutputs"):
+                    atoms[pp(y)] = "so" if skip(y["c"][0])["n"] == "m_soutputs" else "wo"
+                if y["k"] == "call" and y.get("op") == "()" and len(y["c"]) == 2 and skip(y["c"][0])["k"] == "ref" and skip(y["c"][0])["n"] == "x":
+                    atoms[pp(y)] = "xg"
+            # also through the const locals the right-hand side names
+            for v in g.nodes():
+                if v["k"] == "var" and v.get("c"):
+                    for y in walk(v["c"][0]):
+                        if y["k"] == "call" and y.get("op") == "()" and len(y["c"]) == 2 and skip(y["c"][0])["k"] == "ref" and skip(y["c"][0])["n"] == "x":
+                            atoms[pp(y)] = "xg"
+            try:
+                got = kalg.Conv(g, atoms=atoms, scalar=True).conv(rhs)
+            except OutOfFragment as e:
+                R.incomplete("R-C09-7", "scale output@%d" % x["l"], g.loc(x), "cannot evaluate: %s" % e)
+                continue
+            grp = [s_ for s_ in got.free_symbols if s_.name == "group"]
+            so, wo, xg = sym("so"), sym("wo"), sym("xg")
+            # which cases reach this assignment (enclosing `if (group < 0)` branches)
+            cases = {"unassigned": -1, "assigned": 1}
+            for a_ in g.ancestors(x):
+                if a_["k"] == "if":
+                    c_ = pp(a_["c"][a_["r"].index("cond")])
+                    in_then = any(z is x for z in walk(a_["c"][a_["r"].index("then")]))
+                    if c_ == CT("(group < 0)"):
+                        cases.pop("assigned" if in_then else "unassigned", None)
+                    elif c_ in (CT("(group >= 0)"), CT("(0 <= group)")):
+                        cases.pop("unassigned" if in_then else "assigned", None)
+            ok, why = True, ""
+            for name, gv in cases.items():
+                val = got.subs({s_: gv for s_ in grp}) if grp else got
+                val = sp.piecewise_fold(val) if hasattr(sp, "piecewise_fold") else val
+                want = so if name == "unassigned" else so + xg * wo
+                z, w = kalg.is_zero(sp.simplify(val - want), R.seed)
+                if not z:
+                    ok, why = False, "for an %s sample the output is %s, expected %s %s" % (name, sp.simplify(val), want, w)
+                    break
+            nout += 1
+            R.check(ok, "R-C09-7", "scale output@%d" % x["l"], g.loc(x), "output = strong + x(group) * weak for assigned samples, strong alone for unassigned ones", why)
+    R.floor("R-C09-7/output", nout, 1, "assignments of the scale objective's per-sample output")
+
+
 def run(ctx):
     R = ctx.report
     F = ctx.facts(TUS)
@@ -414,6 +590,7 @@ def run(ctx):
     rule_regularisers(F, R)
     rule_iterator_chunks(F, R)
     rule_cache(F, R)
+    rule_index_spaces(F, R)
     from . import c17
     # chunk tiling of pool_t::map itself (shared with C17)
     R.note("chunk tiling of pool_t::map is decided by R-C17-6 (check C17)")
